@@ -17,21 +17,71 @@
 //!   sel <K> <expr>                     `Selector::new(move || expr)`: defines K+1 consecutive ids: key nodes for the keys
 //!                                      0..K-1 (reading key node j = `selector.selected(&j) as i64`) and the selector node
 //!                                      itself (an executor task like a render effect; not readable, no pause/dispose op)
-//!   eff <expr>
-//!   set <id> <v> | read <id> | poll <i> | idle
+//!   memoh <expr>                       leaf memo with the ASYMMETRIC comparator "high-water mark" `|old, new| new > old`
+//!   wrap <w>                           how signals / memos are read: 0 directly, 1 `Signal::from` / `ArcSignal::from`,
+//!                                      2 `Signal::derive` / `ArcSignal::derive`, 3 signals through `MappedSignal::new` /
+//!                                      `ArcMappedSignal::new` (identity projection; WRITES go through it too),
+//!                                      4 `MaybeSignal::from`, 5 `MaybeProp::from` (value `Some(v)`)
+//!   ssig <a> <b>                       an `RwSignal<Two>` holding a struct of two i64 fields: two consecutive ids (field
+//!                                      nodes).  Field nodes are written by `set` / `sset` and read by `read` ops and by
+//!                                      slices only (a body that reads or writes one is `bad-op`)
+//!   slice <f> <g> <s>                  `create_slice(rw, getter of field g, setter of field s)` (or `create_read_slice`
+//!                                      + `create_write_slice`, from `acc`) over the struct signal whose first field node
+//!                                      is <f>: a memo-like node whose value is field g; `sset <slice> <v>` calls its setter
+//!   eff | reff | seff | ieff <expr>    Effect::new | RenderEffect::new | Effect::new_sync | Effect::new_isomorphic
+//!   rieff <expr>                       RenderEffect::new_isomorphic
+//!   weff | wieff | wseff | wsieff [h<id>] <expr>
+//!                                      Effect::watch / watch_sync (i = immediate); the body is the dependency function,
+//!                                      the handler reads signal <id> with `.get()` (or nothing)
+//!   imeff <expr>                       ImmediateEffect::new: no executor task; runs at creation and inside notifications.
+//!                                      Admitted bodies: no write, no untracked read, no key / field node, and the directly
+//!                                      read nodes have pairwise disjoint signal ancestors (else `bad-op`): for those the
+//!                                      effect runs exactly once per change and sees no mixture (see `imm_ok`)
+//!   oncl                               every effect run registers one `on_cleanup` (C02 prints ` cl=<node>:<calls>,…`)
+//!   set <id> <v> | sset <slice> <v> | read <id> | poll <i> | idle
 //! <expr> prefix tokens: L<n> | R<id> (tracked read) | U<id> (read under untrack) |
 //!   add e e | mulc <k> e | ite e e e | seq e e | wr <id> e
 use hx_common::sched;
+#[allow(deprecated)]
+use reactive_graph::wrappers::read::MaybeSignal;
 use reactive_graph::{
-    computed::{ArcMemo, Memo, Selector},
-    effect::{Effect, RenderEffect},
+    computed::{create_read_slice, create_slice, create_write_slice, ArcMemo, Memo, Selector},
+    effect::{Effect, ImmediateEffect, RenderEffect},
     graph::untrack,
-    owner::Owner,
-    signal::{arc_signal, signal, ArcReadSignal, ArcRwSignal, ArcWriteSignal, ReadSignal, RwSignal, WriteSignal},
+    owner::{on_cleanup, Owner},
+    signal::{
+        arc_signal, signal, ArcMappedSignal, ArcReadSignal, ArcRwSignal, ArcWriteSignal, MappedSignal, ReadSignal, RwSignal,
+        WriteSignal,
+    },
     traits::{Get, GetUntracked, Read, ReadUntracked, Set, Update, With, WithUntracked, Write},
-    wrappers::read::{ArcSignal, Signal},
+    wrappers::{
+        read::{ArcSignal, MaybeProp, Signal},
+        write::SignalSetter,
+    },
 };
+use std::cell::RefCell;
 use std::sync::{Arc, Mutex};
+
+thread_local! {
+    /// the running case's shared state, for closures that cannot capture it: `Copy` slice getters and `fn` comparators
+    static CUR: RefCell<Option<Sh>> = const { RefCell::new(None) };
+}
+
+/// the value of an `ssig` signal
+#[derive(Clone, Debug, PartialEq)]
+pub struct Two {
+    pub a: i64,
+    pub b: i64,
+}
+
+impl Two {
+    fn get(&self, f: usize) -> i64 {
+        if f == 0 { self.a } else { self.b }
+    }
+    fn put(&mut self, f: usize, v: i64) {
+        if f == 0 { self.a = v } else { self.b = v }
+    }
+}
 
 #[derive(Clone, Debug, PartialEq)]
 pub enum Expr {
@@ -106,8 +156,12 @@ pub enum EffKind {
     Sync,
     /// `Effect::new_isomorphic`
     Isomorphic,
-    /// `Effect::watch(deps, handler, immediate)`: the body is the dependency function, the handler does nothing
-    Watch(bool),
+    /// `Effect::watch(deps, handler, immediate)` / `Effect::watch_sync` (`sync`): the body is the dependency function
+    Watch { immediate: bool, sync: bool },
+    /// `RenderEffect::new_isomorphic`
+    RenderIso,
+    /// `ImmediateEffect::new`
+    Immediate,
 }
 
 #[derive(Clone)]
@@ -121,6 +175,10 @@ enum Handle {
     Memo(Memo<i64>),
     Eff,
     Key(Selector<i64>, i64),
+    /// field of an `ssig` signal
+    Field(RwSignal<Two>, usize),
+    /// `create_slice` / `create_read_slice` + `create_write_slice`
+    Slice(Signal<i64>, SignalSetter<i64>),
 }
 
 /// how other nodes read a signal/memo: directly, or through a wrapper / derived signal
@@ -129,6 +187,12 @@ enum Reader {
     Direct,
     Wrapped(Signal<i64>),
     ArcWrapped(ArcSignal<i64>),
+    /// identity projections (signals only); writes go through them as well
+    Mapped(MappedSignal<i64>),
+    ArcMapped(ArcMappedSignal<i64>),
+    #[allow(deprecated)]
+    Maybe(MaybeSignal<i64>),
+    Prop(MaybeProp<i64>),
 }
 
 /// what one invocation of a body did (recorded by the interpreter inside the real closure)
@@ -143,6 +207,8 @@ pub struct RunRec {
     pub justified: bool,
     /// global read clock at each tracked read (parallel to `treads`): when the subscription was (re)made
     pub tclock: Vec<u64>,
+    /// the node's result before this run
+    pub prev: Option<i64>,
 }
 
 #[derive(Default)]
@@ -173,6 +239,24 @@ pub struct Shared {
     wakes: Vec<usize>,
     seg: Vec<usize>,
     seg_open: bool,
+    /// the node whose body returned last (the comparator called next belongs to it)
+    last_invoked: Option<usize>,
+    /// first failure seen by the instrumentation (comparator arguments, `prev` argument, cleanup bookkeeping)
+    pub bad: Option<String>,
+    /// immediate effects (no executor task)
+    pub imm: Vec<bool>,
+    /// field nodes of `ssig` signals: (first field node, field index)
+    pub field: Vec<Option<(usize, usize)>>,
+    /// slice nodes: (first field node, getter field, setter field)
+    pub slice: Vec<Option<(usize, usize, usize)>>,
+    /// watch effects: the signal their handler reads
+    handler_read: Vec<Option<usize>>,
+    /// `oncl`
+    pub oncl: bool,
+    /// per effect node: runs whose `on_cleanup` has not been called yet
+    cl_pending: Vec<Vec<u64>>,
+    /// cleanup calls since the last drain (node ids)
+    pub cl_calls: Vec<usize>,
 }
 
 impl Shared {
@@ -198,6 +282,99 @@ impl Shared {
     pub fn is_leaf(&self, id: usize) -> bool {
         matches!(self.coarse.get(id), Some(Some(_)))
     }
+    pub fn is_field(&self, id: usize) -> bool {
+        matches!(self.field.get(id), Some(Some(_)))
+    }
+    pub fn is_imm(&self, id: usize) -> bool {
+        self.imm.get(id).copied().unwrap_or(false)
+    }
+    fn fail(&mut self, msg: String) {
+        self.bad.get_or_insert(msg);
+    }
+}
+
+/// signal ancestors of a node (through every read of memo bodies)
+pub fn ancestors(defs: &[Def], id: usize, out: &mut Vec<usize>) {
+    match defs.get(id) {
+        Some(Def::Sig(_)) | Some(Def::Key(..)) => {
+            if !out.contains(&id) {
+                out.push(id)
+            }
+        }
+        Some(Def::Memo(b)) | Some(Def::Eff(b)) => {
+            let mut rs = vec![];
+            direct_reads(b, &mut rs);
+            for r in rs {
+                ancestors(defs, r, out)
+            }
+        }
+        None => {}
+    }
+}
+
+pub fn direct_reads(e: &Expr, out: &mut Vec<usize>) {
+    match e {
+        Expr::Lit(_) => {}
+        Expr::Rd(_, i) => {
+            if !out.contains(i) {
+                out.push(*i)
+            }
+        }
+        Expr::Add(a, b) | Expr::Seq(a, b) => {
+            direct_reads(a, out);
+            direct_reads(b, out)
+        }
+        Expr::Mulc(_, a) | Expr::Wr(_, a) | Expr::Unt(a) => direct_reads(a, out),
+        Expr::Ite(c, t, f) => {
+            direct_reads(c, out);
+            direct_reads(t, out);
+            direct_reads(f, out)
+        }
+    }
+}
+
+/// Body admitted for an immediate effect.  An `ImmediateEffect` runs INSIDE the notification that reaches it; if two of
+/// the nodes it reads directly depend on the written signal, it runs while the second one is not yet marked (it sees
+/// new + old) and runs again afterwards.  With pairwise disjoint signal ancestors one write changes at most one of its
+/// sources: one run per change, no mixture - the shapes the model's "run after the step" desugaring covers.
+/// (Both restrictions describe real behaviour of the unchanged code: see hooks/imm-glitch-demo.)
+pub fn imm_ok(defs: &[Def], e: &Expr) -> bool {
+    if has_write(e) || has_untracked(e) {
+        return false;
+    }
+    let mut rs = vec![];
+    direct_reads(e, &mut rs);
+    if rs.iter().any(|r| matches!(defs.get(*r), Some(Def::Key(..)))) {
+        return false;
+    }
+    // depth <= 1: a directly read memo reads signals only.  Through a longer memo chain the effect's `mark_check` re-enters
+    // the chain's own pull: the memo in the middle is recomputed twice, and a join memo is recomputed while one of its
+    // sources is not yet marked (the effect then observes a value the memo never has from scratch).
+    for r in &rs {
+        if let Some(Def::Memo(b)) = defs.get(*r) {
+            let mut inner = vec![];
+            direct_reads(b, &mut inner);
+            if inner.iter().any(|x| !matches!(defs.get(*x), Some(Def::Sig(_)))) {
+                return false;
+            }
+        }
+    }
+    let anc: Vec<Vec<usize>> = rs
+        .iter()
+        .map(|r| {
+            let mut v = vec![];
+            ancestors(defs, *r, &mut v);
+            v
+        })
+        .collect();
+    for i in 0..anc.len() {
+        for j in i + 1..anc.len() {
+            if anc[i].iter().any(|x| anc[j].contains(x)) {
+                return false;
+            }
+        }
+    }
+    true
 }
 
 pub type Sh = Arc<Mutex<Shared>>;
@@ -341,11 +518,53 @@ macro_rules! write_acc {
     };
 }
 
+/// `MaybeProp<i64>`: the value is `Option<i64>`
+macro_rules! tracked_opt {
+    ($x:expr, $a:expr) => {
+        match $a {
+            None => $x.get().unwrap(),
+            Some(a) => match a % 3 {
+                0 => $x.get().unwrap(),
+                1 => $x.with(|v| v.unwrap()),
+                _ => (*$x.read()).unwrap(),
+            },
+        }
+    };
+}
+
+macro_rules! untracked_opt {
+    ($x:expr, $a:expr) => {
+        match $a {
+            None => untrack(|| $x.get().unwrap()),
+            Some(a) => match a % 5 {
+                0 => untrack(|| $x.get().unwrap()),
+                1 => $x.get_untracked().unwrap(),
+                2 => $x.with_untracked(|v| v.unwrap()),
+                3 => (*$x.read_untracked()).unwrap(),
+                _ => $x.try_get_untracked().unwrap().unwrap(),
+            },
+        }
+    };
+}
+
+macro_rules! pick_opt {
+    (tracked, $x:expr, $a:expr) => {
+        tracked_opt!($x, $a)
+    };
+    (untracked, $x:expr, $a:expr) => {
+        untracked_opt!($x, $a)
+    };
+}
+
 macro_rules! read_with {
     ($m:ident, $h:expr, $r:expr, $a:expr) => {
         match $r {
             Reader::Wrapped(s) => $m!(s, $a),
             Reader::ArcWrapped(s) => $m!(s, $a),
+            Reader::Mapped(s) => $m!(s, $a),
+            Reader::ArcMapped(s) => $m!(s, $a),
+            Reader::Maybe(s) => $m!(s, $a),
+            Reader::Prop(s) => pick_opt!($m, s, $a),
             Reader::Direct => match $h {
                 Handle::ArcSig(s) => $m!(s, $a),
                 Handle::Sig(s) => $m!(s, $a),
@@ -353,8 +572,9 @@ macro_rules! read_with {
                 Handle::Split(s, _) => $m!(s, $a),
                 Handle::ArcMemo(m) => $m!(m, $a),
                 Handle::Memo(m) => $m!(m, $a),
+                Handle::Slice(s, _) => $m!(s, $a),
                 Handle::Eff => 0,
-                Handle::Key(..) => unreachable!(),
+                Handle::Key(..) | Handle::Field(..) => unreachable!(),
             },
         }
     };
@@ -366,6 +586,15 @@ fn read_node(h: &Handle, r: &Reader, tracked: bool, a: Option<usize>) -> i64 {
         // a selector has one accessor
         return if tracked { sel.selected(j) as i64 } else { untrack(|| sel.selected(j) as i64) };
     }
+    if let Handle::Field(rw, f) = h {
+        // only `read` ops get here (no observer)
+        let f = *f;
+        return match a.map(|a| a % 3) {
+            None | Some(0) => rw.get().get(f),
+            Some(1) => rw.with(|t| t.get(f)),
+            _ => rw.read().get(f),
+        };
+    }
     if tracked {
         read_with!(tracked, h, r, a)
     } else {
@@ -373,8 +602,30 @@ fn read_node(h: &Handle, r: &Reader, tracked: bool, a: Option<usize>) -> i64 {
     }
 }
 
-fn write_handle(h: &Handle, v: i64, a: Option<usize>) {
+fn write_handle(h: &Handle, r: &Reader, v: i64, a: Option<usize>) {
+    match r {
+        Reader::Mapped(m) => return write_acc!(m, v, a),
+        Reader::ArcMapped(m) => return write_acc!(m, v, a),
+        _ => {}
+    }
     match h {
+        Handle::Field(rw, f) => {
+            let f = *f;
+            match a.map(|a| a % 4) {
+                None | Some(0) => rw.update(|t| t.put(f, v)),
+                Some(1) => rw.write().put(f, v),
+                Some(2) => {
+                    let mut t = rw.get_untracked();
+                    t.put(f, v);
+                    rw.set(t)
+                }
+                _ => {
+                    let mut t = rw.get_untracked();
+                    t.put(f, v);
+                    rw.try_set(t);
+                }
+            }
+        }
         Handle::ArcSig(s) => write_acc!(s, v, a),
         Handle::Sig(s) => write_acc!(s, v, a),
         Handle::ArcSplit(_, s) => write_acc!(s, v, a),
@@ -399,17 +650,51 @@ pub fn sig_split(acc: Option<usize>, id: usize) -> bool {
     }
 }
 
+/// Every comparator handed to `new_with_compare` reports its arguments: the first must be the memo's previous value
+/// (`None` on the first run), the second the value its body has just returned.
+fn cmp_log(a: Option<&i64>, b: Option<&i64>) {
+    CUR.with(|c| {
+        if let Some(sh) = &*c.borrow() {
+            let mut g = sh.lock().unwrap();
+            if let Some(id) = g.last_invoked {
+                let (prev, res) = match &g.last[id] {
+                    Some(r) => (r.prev, Some(r.result)),
+                    None => (None, None),
+                };
+                if a.copied() != prev || b.copied() != res {
+                    g.fail(format!(
+                        "comparator-args memo {id}: called with ({a:?}, {b:?}), previous value {prev:?}, computed value {res:?}"
+                    ));
+                }
+            }
+        }
+    })
+}
+
 fn ne(a: Option<&i64>, b: Option<&i64>) -> bool {
+    cmp_log(a, b);
     a != b
 }
 
 fn coarse<const K: i64>(a: Option<&i64>, b: Option<&i64>) -> bool {
+    cmp_log(a, b);
     a.map(|x| x.div_euclid(K)) != b.map(|x| x.div_euclid(K))
+}
+
+/// asymmetric: only an increase counts as a change
+fn highwater(a: Option<&i64>, b: Option<&i64>) -> bool {
+    cmp_log(a, b);
+    match (a, b) {
+        (Some(a), Some(b)) => b > a,
+        _ => true,
+    }
 }
 
 /// the comparator is a `fn` pointer (cannot capture k): one instance per supported k
 pub fn coarse_fn(k: i64) -> Option<fn(Option<&i64>, Option<&i64>) -> bool> {
     Some(match k {
+        // `memoh`
+        0 => highwater,
         2 => coarse::<2>,
         3 => coarse::<3>,
         4 => coarse::<4>,
@@ -486,19 +771,19 @@ fn interp_in(sh: &Sh, e: &Expr, in_unt: bool, node: usize, pos: &mut usize) -> i
                     g.env[*id] = v;
                     g.ver[*id] += 1;
                 }
-                (g.handles.get(*id).cloned(), g.acc)
+                (g.handles.get(*id).cloned().zip(g.readers.get(*id).cloned()), g.acc)
             };
-            if let Some(h) = h {
-                write_handle(&h, v, acc.map(|n| n + node * 7 + site))
+            if let Some((h, r)) = h {
+                write_handle(&h, &r, v, acc.map(|n| n + node * 7 + site))
             }
             v
         }
     }
 }
 
-/// one invocation of node `id`'s body by the real system
-fn invoke(sh: &Sh, id: usize, body: &Expr) -> i64 {
-    {
+/// bookkeeping at the start of an invocation of node `id`
+fn begin_run(sh: &Sh, id: usize) {
+    let register = {
         let mut g = sh.lock().unwrap();
         // wake-ups made so far belong to whatever ran before
         g.close_seg();
@@ -508,18 +793,49 @@ fn invoke(sh: &Sh, id: usize, body: &Expr) -> i64 {
             Some(prev) => prev.treads.iter().any(|(x, _, vx)| g.ver[*x] != *vx),
         };
         g.stack.push(RunRec { node: id, justified, ..Default::default() });
+        let eff = matches!(g.defs.get(id), Some(Def::Eff(_)));
+        if g.oncl && eff {
+            // exactly one cleanup call per superseded run: the previous run's must have happened by now
+            if !g.cl_pending[id].is_empty() {
+                let p = g.cl_pending[id].clone();
+                let n = g.runs[id] + 1;
+                g.fail(format!("cleanup-missed effect {id}: run {n} starts, on_cleanup of run(s) {p:?} not called"));
+            }
+            let gen = g.runs[id] + 1;
+            g.cl_pending[id].push(gen);
+            Some(gen)
+        } else {
+            None
+        }
+    };
+    if let Some(gen) = register {
+        let sh = sh.clone();
+        on_cleanup(move || {
+            let mut g = sh.lock().unwrap();
+            match g.cl_pending[id].iter().position(|x| *x == gen) {
+                Some(p) => {
+                    g.cl_pending[id].remove(p);
+                }
+                None => g.fail(format!("cleanup-twice effect {id}: on_cleanup of run {gen} called again")),
+            }
+            g.cl_calls.push(id);
+        });
     }
-    let v = interp(sh, id, body);
+}
+
+fn end_run(sh: &Sh, id: usize, v: i64) {
     let mut g = sh.lock().unwrap();
     let mut rec = g.stack.pop().unwrap();
     rec.result = v;
-    let changed = g.last[id].as_ref().map(|p| p.result) != Some(v);
+    rec.prev = g.last[id].as_ref().map(|p| p.result);
+    let changed = rec.prev != Some(v);
     if changed {
         g.ver[id] += 1;
     }
     g.runs[id] += 1;
     g.last[id] = Some(rec.clone());
     g.log.push(rec);
+    g.last_invoked = Some(id);
     if let Some(Some((first, k))) = g.sel.get(id).cloned() {
         // the selector's source returned `v`: from now on `selected(j)` must answer `j == v`; the notifications that
         // follow (old key, new key, in hash-map order) form one wake segment
@@ -533,6 +849,51 @@ fn invoke(sh: &Sh, id: usize, body: &Expr) -> i64 {
         g.sync_wakes();
         g.seg_open = true;
     }
+}
+
+/// one invocation of node `id`'s body by the real system
+fn invoke(sh: &Sh, id: usize, body: &Expr) -> i64 {
+    begin_run(sh, id);
+    let v = interp(sh, id, body);
+    end_run(sh, id, v);
+    v
+}
+
+/// a memo body: `prev` is the previous value as the real constructor handed it to the closure
+fn invoke_memo(sh: &Sh, id: usize, body: &Expr, prev: Option<i64>) -> i64 {
+    let v = invoke(sh, id, body);
+    let mut g = sh.lock().unwrap();
+    let want = g.last[id].as_ref().and_then(|r| r.prev);
+    if prev != want {
+        g.fail(format!("prev-arg memo {id}: closure got {prev:?}, previous value {want:?}"));
+    }
+    v
+}
+
+/// the getter of a slice (a `Copy` closure: it finds the case through `CUR`): one invocation of the slice's memo,
+/// reading both fields of the struct signal (the memo is subscribed to the whole signal)
+fn slice_get(id: usize, t: &Two) -> i64 {
+    let Some(sh) = CUR.with(|c| c.borrow().clone()) else { return 0 };
+    let Some(Some((first, gf, _))) = sh.lock().unwrap().slice.get(id).cloned() else { return 0 };
+    begin_run(&sh, id);
+    {
+        let mut g = sh.lock().unwrap();
+        // same order as the model's body `seq R<other> R<field>`
+        for f in [1 - gf, gf] {
+            let x = first + f;
+            let (v, ver, expect) = (t.get(f), g.ver[x], g.env[x]);
+            g.clock += 1;
+            let clock = g.clock;
+            let top = g.stack.last_mut().unwrap();
+            top.treads.push((x, v, ver));
+            top.tclock.push(clock);
+            if v != expect && top.glitch.is_none() {
+                top.glitch = Some((x, v, expect));
+            }
+        }
+    }
+    let v = t.get(gf);
+    end_run(&sh, id, v);
     v
 }
 
@@ -543,6 +904,7 @@ pub struct EffSlot {
     _effect_sync: Option<Effect<reactive_graph::owner::SyncStorage>>,
     render: Option<RenderEffect<i64>>,
     _selector: Option<Selector<i64>>,
+    _immediate: Option<ImmediateEffect>,
     pub alive: bool,
     pub paused: bool,
     /// run count when last paused (excused from the convergence oracle until it runs again)
@@ -555,6 +917,7 @@ pub struct Case {
     arena: bool,
     wrap: u8,
     pub effs: Vec<EffSlot>,
+    pending_handler: Option<usize>,
 }
 
 impl Case {
@@ -563,7 +926,9 @@ impl Case {
         sched::reset();
         let owner = Owner::new();
         owner.set();
-        Case { sh: Arc::new(Mutex::new(Shared::default())), owner, arena: false, wrap: 0, effs: vec![] }
+        let sh: Sh = Arc::new(Mutex::new(Shared::default()));
+        CUR.with(|c| *c.borrow_mut() = Some(sh.clone()));
+        Case { sh, owner, arena: false, wrap: 0, effs: vec![], pending_handler: None }
     }
 
     pub fn set_mode(&mut self, arena: bool) {
@@ -578,6 +943,62 @@ impl Case {
 
     pub fn set_acc(&mut self, n: usize) {
         self.sh.lock().unwrap().acc = Some(n)
+    }
+
+    pub fn set_oncl(&mut self) {
+        self.sh.lock().unwrap().oncl = true
+    }
+
+    /// `ssig a b`: two field nodes over one `RwSignal<Two>` (always the arena type: slices take an `RwSignal`)
+    pub fn define_struct(&mut self, a: i64, b: i64) {
+        let rw = self.owner.with(|| RwSignal::new(Two { a, b }));
+        let first = self.sh.lock().unwrap().defs.len();
+        for (f, v) in [a, b].into_iter().enumerate() {
+            self.push_entry(Def::Sig(v), Handle::Field(rw, f), Reader::Direct, None, None);
+            self.sh.lock().unwrap().field[first + f] = Some((first, f));
+        }
+    }
+
+    /// `slice f g s`
+    pub fn define_slice(&mut self, first: usize, gf: usize, sf: usize) -> bool {
+        let (rw, id, acc) = {
+            let g = self.sh.lock().unwrap();
+            let Some(Handle::Field(rw, 0)) = g.handles.get(first) else { return false };
+            (*rw, g.defs.len(), g.acc)
+        };
+        if gf > 1 || sf > 1 {
+            return false;
+        }
+        // for the oracle the slice is a memo over both fields whose value is field g
+        let body = Expr::Seq(Box::new(Expr::Rd(true, first + 1 - gf)), Box::new(Expr::Rd(true, first + gf)));
+        self.push_entry(Def::Memo(body), Handle::Eff, Reader::Direct, None, None);
+        self.sh.lock().unwrap().slice[id] = Some((first, gf, sf));
+        let getter = move |t: &Two| slice_get(id, t);
+        let setter = move |t: &mut Two, v: i64| t.put(sf, v);
+        let (r, w) = self.owner.with(|| {
+            if acc.map(|n| (n + id) % 2 == 1).unwrap_or(false) {
+                (create_read_slice(rw, getter), create_write_slice(rw, setter))
+            } else {
+                create_slice(rw, getter, setter)
+            }
+        });
+        self.sh.lock().unwrap().handles[id] = Handle::Slice(r, w);
+        true
+    }
+
+    /// `sset <slice> <v>`: through the slice's setter
+    pub fn sset(&mut self, id: usize, v: i64) -> Option<usize> {
+        let (w, target) = {
+            let mut g = self.sh.lock().unwrap();
+            let (first, _, sf) = g.slice.get(id).cloned()??;
+            let Some(Handle::Slice(_, w)) = g.handles.get(id).cloned() else { return None };
+            g.env[first + sf] = v;
+            g.ver[first + sf] += 1;
+            (w, first + sf)
+        };
+        self.end_excuses(target);
+        w.set(v);
+        Some(target)
     }
 
     pub fn define(&mut self, d: Def) {
@@ -604,6 +1025,11 @@ impl Case {
         g.runs.push(0);
         g.coarse.push(coarse);
         g.sel.push(sel);
+        g.imm.push(false);
+        g.field.push(None);
+        g.slice.push(None);
+        g.handler_read.push(None);
+        g.cl_pending.push(vec![]);
     }
 
     /// `sel K expr`: ids first..first+K-1 are the key nodes, first+K the selector node
@@ -645,10 +1071,19 @@ impl Case {
             _effect_sync: None,
             render: None,
             _selector: Some(sel),
+            _immediate: None,
             alive: true,
             paused: false,
             paused_at_runs: None,
         });
+    }
+
+    /// a watch effect whose handler reads signal `h`
+    pub fn define_watch(&mut self, d: Def, kind: EffKind, h: Option<usize>) {
+        let id = self.sh.lock().unwrap().defs.len();
+        self.pending_handler = h;
+        self.define_full(d, kind, None);
+        self.sh.lock().unwrap().handler_read[id] = h;
     }
 
     fn define_full(&mut self, d: Def, kind: EffKind, coarse: Option<i64>) {
@@ -657,7 +1092,7 @@ impl Case {
         let arena = self.arena;
         let acc = self.sh.lock().unwrap().acc;
         let h = self.owner.with(|| match &d {
-            Def::Sig(v) => match (arena, sig_split(acc, id)) {
+            Def::Sig(v) => match (arena, sig_split(acc, id) && self.wrap != 3) {
                 (true, false) => Handle::Sig(RwSignal::new(*v)),
                 (false, false) => Handle::ArcSig(ArcRwSignal::new(*v)),
                 (true, true) => {
@@ -673,20 +1108,28 @@ impl Case {
                 let b = b.clone();
                 let cmp = coarse.and_then(coarse_fn);
                 match (arena, cmp, memo_ctor(acc, id)) {
-                    (true, Some(c), _) => Handle::Memo(Memo::new_with_compare(move |_| invoke(&sh, id, &b), c)),
-                    (false, Some(c), _) => Handle::ArcMemo(ArcMemo::new_with_compare(move |_| invoke(&sh, id, &b), c)),
-                    (true, None, 0) => Handle::Memo(Memo::new(move |_| invoke(&sh, id, &b))),
-                    (false, None, 0) => Handle::ArcMemo(ArcMemo::new(move |_| invoke(&sh, id, &b))),
+                    (true, Some(c), _) => {
+                        Handle::Memo(Memo::new_with_compare(move |p| invoke_memo(&sh, id, &b, p.copied()), c))
+                    }
+                    (false, Some(c), _) => {
+                        Handle::ArcMemo(ArcMemo::new_with_compare(move |p| invoke_memo(&sh, id, &b, p.copied()), c))
+                    }
+                    (true, None, 0) => Handle::Memo(Memo::new(move |p| invoke_memo(&sh, id, &b, p.copied()))),
+                    (false, None, 0) => Handle::ArcMemo(ArcMemo::new(move |p| invoke_memo(&sh, id, &b, p.copied()))),
                     (true, None, 1) => Handle::Memo(Memo::new_owning(move |prev: Option<i64>| {
-                        let v = invoke(&sh, id, &b);
+                        let v = invoke_memo(&sh, id, &b, prev);
                         (v, prev != Some(v))
                     })),
                     (false, None, 1) => Handle::ArcMemo(ArcMemo::new_owning(move |prev: Option<i64>| {
-                        let v = invoke(&sh, id, &b);
+                        let v = invoke_memo(&sh, id, &b, prev);
                         (v, prev != Some(v))
                     })),
-                    (true, None, _) => Handle::Memo(Memo::new_with_compare(move |_| invoke(&sh, id, &b), ne)),
-                    (false, None, _) => Handle::ArcMemo(ArcMemo::new_with_compare(move |_| invoke(&sh, id, &b), ne)),
+                    (true, None, _) => {
+                        Handle::Memo(Memo::new_with_compare(move |p| invoke_memo(&sh, id, &b, p.copied()), ne))
+                    }
+                    (false, None, _) => {
+                        Handle::ArcMemo(ArcMemo::new_with_compare(move |p| invoke_memo(&sh, id, &b, p.copied()), ne))
+                    }
                 }
             }
             Def::Eff(_) | Def::Key(..) => Handle::Eff,
@@ -722,6 +1165,23 @@ impl Case {
                 let x = x.clone();
                 Reader::ArcWrapped(ArcSignal::derive(move || x.get()))
             }
+            (3, Handle::Sig(x)) => Reader::Mapped(MappedSignal::new(*x, |v| v, |v| v)),
+            (3, Handle::ArcSig(x)) => Reader::ArcMapped(ArcMappedSignal::new(x.clone(), |v| v, |v| v)),
+            #[allow(deprecated)]
+            (4, Handle::Sig(x)) => Reader::Maybe(MaybeSignal::from(*x)),
+            #[allow(deprecated)]
+            (4, Handle::Split(x, _)) => Reader::Maybe(MaybeSignal::from(*x)),
+            #[allow(deprecated)]
+            (4, Handle::Memo(x)) => Reader::Maybe(MaybeSignal::from(*x)),
+            #[allow(deprecated)]
+            (4, Handle::ArcSig(x)) => Reader::Maybe(MaybeSignal::from(x.clone())),
+            #[allow(deprecated)]
+            (4, Handle::ArcSplit(x, _)) => Reader::Maybe(MaybeSignal::from(x.clone())),
+            #[allow(deprecated)]
+            (4, Handle::ArcMemo(x)) => Reader::Maybe(MaybeSignal::from(x.clone())),
+            (5, Handle::Sig(x)) => Reader::Prop(MaybeProp::from(*x)),
+            (5, Handle::Split(x, _)) => Reader::Prop(MaybeProp::from(*x)),
+            (5, Handle::Memo(x)) => Reader::Prop(MaybeProp::from(*x)),
             _ => Reader::Direct,
         });
         self.push_entry(d.clone(), h, reader, coarse, None);
@@ -730,18 +1190,42 @@ impl Case {
             let child = self.owner.child();
             let b = b.clone();
             let sh = self.sh.clone();
+            let hread = self.pending_handler.take().and_then(|h| {
+                let g = self.sh.lock().unwrap();
+                g.handles.get(h).cloned().zip(g.readers.get(h).cloned())
+            });
+            // the watch handler reads its signal with a tracking accessor; by contract that subscribes nobody
+            let handler = move |_: &i64, _: Option<&i64>, _: Option<()>| {
+                if let Some((h, r)) = &hread {
+                    read_node(h, r, true, None);
+                }
+            };
+            if kind == EffKind::Immediate {
+                self.sh.lock().unwrap().imm[id] = true;
+            }
+            let mut immediate_eff = None;
             let (eff, eff_sync, render) = child.with(|| match kind {
                 EffKind::Effect => (Some(Effect::new(move |_: Option<i64>| invoke(&sh, id, &b))), None, None),
                 EffKind::Render => (None, None, Some(RenderEffect::new(move |_: Option<i64>| invoke(&sh, id, &b)))),
+                EffKind::RenderIso => {
+                    (None, None, Some(RenderEffect::new_isomorphic(move |_: Option<i64>| invoke(&sh, id, &b))))
+                }
                 EffKind::Sync => (None, Some(Effect::new_sync(move |_: Option<i64>| invoke(&sh, id, &b))), None),
                 EffKind::Isomorphic => {
                     (None, Some(Effect::new_isomorphic(move |_: Option<i64>| invoke(&sh, id, &b))), None)
                 }
-                EffKind::Watch(immediate) => (
-                    Some(Effect::watch(move || invoke(&sh, id, &b), |_: &i64, _: Option<&i64>, _: Option<()>| (), immediate)),
-                    None,
-                    None,
-                ),
+                EffKind::Watch { immediate, sync: false } => {
+                    (Some(Effect::watch(move || invoke(&sh, id, &b), handler, immediate)), None, None)
+                }
+                EffKind::Watch { immediate, sync: true } => {
+                    (None, Some(Effect::watch_sync(move || invoke(&sh, id, &b), handler, immediate)), None)
+                }
+                EffKind::Immediate => {
+                    immediate_eff = Some(ImmediateEffect::new(move || {
+                        invoke(&sh, id, &b);
+                    }));
+                    (None, None, None)
+                }
             });
             self.effs.push(EffSlot {
                 node: id,
@@ -750,6 +1234,7 @@ impl Case {
                 _effect_sync: eff_sync,
                 render,
                 _selector: None,
+                _immediate: immediate_eff,
                 alive: true,
                 paused: false,
                 paused_at_runs: None,
@@ -759,7 +1244,7 @@ impl Case {
 
     pub fn eff_op(&mut self, node: usize, op: &str) -> bool {
         let runs = self.sh.lock().unwrap().runs.get(node).copied().unwrap_or(0);
-        if self.sh.lock().unwrap().is_sel(node) {
+        if self.sh.lock().unwrap().is_sel(node) || self.sh.lock().unwrap().is_imm(node) {
             // a selector is not an owner-scoped effect: no pause / resume / dispose op on it (root pause reaches it)
             return false;
         }
@@ -801,18 +1286,20 @@ impl Case {
         }
     }
 
-    pub fn set(&mut self, id: usize, v: i64) -> bool {
-        // the pause excuse covers only changes made DURING the pause: a write to a dependency of a
-        // resumed effect ends it (the effect must be notified and run again)
-        {
-            let g = self.sh.lock().unwrap();
-            for slot in self.effs.iter_mut() {
-                if slot.alive && !slot.paused && slot.paused_at_runs.is_some() && Self::depends_on(&g, slot.node, id, 64) {
-                    slot.paused_at_runs = None;
-                }
+    /// the pause excuse covers only changes made DURING the pause: a write to a dependency of a
+    /// resumed effect ends it (the effect must be notified and run again)
+    fn end_excuses(&mut self, id: usize) {
+        let g = self.sh.lock().unwrap();
+        for slot in self.effs.iter_mut() {
+            if slot.alive && !slot.paused && slot.paused_at_runs.is_some() && Self::depends_on(&g, slot.node, id, 64) {
+                slot.paused_at_runs = None;
             }
         }
-        let h = {
+    }
+
+    pub fn set(&mut self, id: usize, v: i64) -> bool {
+        self.end_excuses(id);
+        let (h, r, a) = {
             let mut g = self.sh.lock().unwrap();
             if !matches!(g.defs.get(id), Some(Def::Sig(_))) {
                 return false;
@@ -820,9 +1307,9 @@ impl Case {
             g.env[id] = v;
             g.ver[id] += 1;
             g.op_sites += 1;
-            (g.handles[id].clone(), g.acc.map(|n| n + g.op_sites))
+            (g.handles[id].clone(), g.readers[id].clone(), g.acc.map(|n| n + g.op_sites))
         };
-        write_handle(&h.0, v, h.1);
+        write_handle(&h, &r, v, a);
         true
     }
 
@@ -885,9 +1372,15 @@ impl Case {
         g.defs.iter().enumerate().filter(|(_, d)| matches!(d, Def::Eff(_))).map(|(i, _)| i).collect()
     }
 
+    /// effect nodes that own an executor task (all but immediate effects), in spawn order
+    pub fn task_ids(&self) -> Vec<usize> {
+        let g = self.sh.lock().unwrap();
+        g.defs.iter().enumerate().filter(|(i, d)| matches!(d, Def::Eff(_)) && !g.is_imm(*i)).map(|(i, _)| i).collect()
+    }
+
     /// ready effect node ids (woken tasks in spawn order)
     pub fn ready(&self) -> Vec<usize> {
-        let eff = self.effect_ids();
+        let eff = self.task_ids();
         sched::ready().into_iter().filter_map(|t| eff.get(t).copied()).collect()
     }
 
@@ -922,6 +1415,7 @@ impl Case {
 
 impl Drop for Case {
     fn drop(&mut self) {
+        CUR.with(|c| *c.borrow_mut() = None);
         self.effs.clear();
         // the handles hold closures that hold `sh`: break the cycle
         let (hs, rs) = {
@@ -943,7 +1437,7 @@ pub fn parse_def(w: &[&str]) -> Option<Def> {
             (pos == rest.len()).then_some(Def::Memo(e))
         }
         ["eff", rest @ ..] | ["reff", rest @ ..] | ["seff", rest @ ..] | ["ieff", rest @ ..] | ["weff", rest @ ..]
-        | ["wieff", rest @ ..] => {
+        | ["wieff", rest @ ..] | ["wseff", rest @ ..] | ["wsieff", rest @ ..] | ["rieff", rest @ ..] | ["imeff", rest @ ..] => {
             let mut pos = 0;
             let e = parse_expr(rest, &mut pos)?;
             (pos == rest.len()).then_some(Def::Eff(e))
